@@ -75,6 +75,15 @@ impl Mode {
             None => return Ok(None),
         };
 
+        // a packet can never be shorter than its own header: such a size is a framing error and
+        // must not be consumed as if it were a frame
+        if n < self.valid_raw_buffer_min_len() {
+            return Err(io::Error::new(
+                io::ErrorKind::InvalidData,
+                "frame is shorter than the minimum packet size",
+            ));
+        }
+
         // does this exceed the max possible packet?
         if n > self.max_length() {
             return Err(io::Error::new(
